@@ -208,6 +208,16 @@ static std::string exec_case(const Args &a) {
     if (op == "num.fmt") return do_fmt(a.get("ty"), a.get("cls"), a.get("v"));
     if (op == "num.ss") return do_ss(a.get("ty"), a.get("v"));
     if (op == "num.parse") return do_parse(parse_bytes(a.get("in")), (int)a.snum("base"));
+    if (op == "num.bool") {   // to_bool() / to_bool(result): "true" / "false" in any letter case, otherwise to_int() != 0; from_bool of the value
+        std::string bytes = parse_bytes(a.get("in"));
+        return guarded([&]() -> std::string {
+            ST::string s = raw_string(bytes);
+            ST::conversion_result r;
+            bool v = s.to_bool(), vr = s.to_bool(r);
+            return std::string("ok v=") + (v ? "1" : "0") + " r=" + (vr ? "1" : "0") + "," + (r.ok() ? "1" : "0") + (r.full_match() ? "1" : "0") +
+                   " fb=" + hex_bytes(str_bytes(ST::string::from_bool(v)));
+        });
+    }
     if (op == "blk.num.i16") {   // route=from|fmt|ss sgn=0|1 base= up= lo= n=   (value index 0..65535; signed: index - 32768)
         std::string route = a.get("route"); bool sgn = a.num("sgn") != 0; int base = (int)a.num("base"); bool up = a.num("up") != 0;
         uint64_t lo = a.num("lo"), n = a.num("n");
@@ -369,6 +379,17 @@ static void gen(Emitter &em, const Options &opt) {
                 emit("blk.num.parse base=" + std::to_string(base) + " alpha=" + hex_bytes(alpha2) + " len=" + std::to_string(len) + " lo=" + std::to_string(lo) +
                      " n=" + std::to_string(std::min<uint64_t>(2048, tot - lo)));
         }
+
+    // ---- booleans: the two words in every letter case, near misses, numerals (to_int() != 0, base 0), empty, NUL inside
+    {
+        std::vector<std::string> texts = {"", "0", "1", "-1", "00", "0x0", "0x10", "010", "  7", "7 ", "true ", " true", "tru", "truee", "fals", "false0", "yes", "no", "t", "f",
+                                          "2147483648", "4294967296", "-2147483649", "+0", "-0", "0.5", "1e3", std::string("true\0", 5), std::string("\0true", 5), std::string("1\0", 2)};
+        for (int mask = 0; mask < 16; ++mask) { std::string w = "true"; for (int i = 0; i < 4; ++i) if (mask >> i & 1) w[i] = (char)(w[i] - 32); texts.push_back(w); }
+        for (int mask = 0; mask < 32; ++mask) { std::string w = "false"; for (int i = 0; i < 5; ++i) if (mask >> i & 1) w[i] = (char)(w[i] - 32); texts.push_back(w); }
+        // bit-5 near misses of the letters (what a too-eager case fold would accept)
+        for (const char *w : {"\x14rue", "tRU\x05", "fal\x13e", "F\x01LSE", "t\x12ue", "TRUE\x20", "tr\xD5" "e"}) texts.push_back(w);
+        for (auto &t : texts) emit("num.bool in=" + hex_bytes(t));
+    }
 
     // ---- near-overflow numerals in every base (individually): limits of every result type, +-1, one more digit,
     //      with sign / prefix / white space / trailing text variations
